@@ -6,7 +6,7 @@
 From Coq Require Import List Bool NArith Permutation.
 Import ListNotations.
 From Setec Require Import Base.SMap Base.Bytes Acl.Glob Server.KV Server.DB Server.Lin Server.LinProofs
-     Server.LinDB Server.LinDBProofs Corr.Common Corr.Run_DB Corr.Run_C14.
+     Server.LinDB Server.LinDBProofs Server.KVProofs Corr.Common Corr.Run_DB Corr.Run_C14.
 Open Scope N_scope.
 
 Section C14.
@@ -71,6 +71,15 @@ Theorem C14_db_design_accepted : forall cs d0 g0 tr m h,
 Proof. intros cs d0 g0. exact (db_design_accepted cs (state_of_dump d0 g0)). Qed.
 Print Assumptions C14_db_design_accepted.
 
+(* histories may contain calls made while a save is REFUSED (state directory unreachable):
+   the specification step of such a call leaves the store and the write generation as they
+   were - so every later read, by whatever client and of whatever kind, is explained by the
+   state BEFORE the refused call (state kept outside the rolled-back map must not show) *)
+Theorem C14_refused_save_changes_nothing : forall cs (s : dbstate V) c o s' r,
+  Inv (kv s) -> lin_db_step cs s (c, false, o) = (s', r) -> kv s' = kv s /\ gen s' = gen s.
+Proof. exact lin_db_step_refused. Qed.
+Print Assumptions C14_refused_save_changes_nothing.
+
 (* ---- non-vacuity ---- *)
 Definition su : caller := Cl 1 [Rl [AGet; AInfo; APut; AActivate; ADelete] [[x2a]]].
 Definition nA : name := [x61].
@@ -130,7 +139,7 @@ Proof. vm_compute. reflexivity. Qed.
 
 (* the machine: two clients, interleaved; the hypotheses of the design theorem are met *)
 Definition demo_trace : list (event lop) :=
-  [EInv 0 (0%nat, OPut nA 1); EInv 1 (0%nat, OPut nA 2); ELin 1; EInv 2 (0%nat, OGet nA); ELin 0; ERet 1; ELin 2; ERet 2; ERet 0].
+  [EInv 0 (0%nat, true, OPut nA 1); EInv 1 (0%nat, true, OPut nA 2); ELin 1; EInv 2 (0%nat, true, OGet nA); ELin 0; ERet 1; ELin 2; ERet 2; ERet 0].
 Example machine_runs :
   match mrun (lin_db_step [su]) (minit lop (result V) (state_of_dump [] 1)) demo_trace with
   | Some m => Nat.eqb (length (m_lin m)) 3 && forallb (fun r => has (l_id r) (m_rets m)) (m_lin m)
@@ -141,5 +150,29 @@ Proof. vm_compute. reflexivity. Qed.
 
 (* a trace in which a call returns before its step is not an execution of the design *)
 Example not_an_execution :
-  mrun (lin_db_step [su]) (minit lop (result V) (state_of_dump [] 1)) [EInv 0 (0%nat, OPut nA 1); ERet 0] = None.
+  mrun (lin_db_step [su]) (minit lop (result V) (state_of_dump [] 1)) [EInv 0 (0%nat, true, OPut nA 1); ERet 0] = None.
 Proof. vm_compute. reflexivity. Qed.
+
+(* a refused activate of the existing, non-active version 2, then a conditional get with
+   version 2: the active version is still 1, so its value must be delivered ... *)
+Example refused_activate_then_poll_accepted :
+  Run_C14.check (LCase [su] [(nA, [(1,1);(2,2)], 1, 2)] 3
+    [LCf 21 22 0 (OActivate nA 2) ROther; LC 23 26 0 (OGetCond nA 2) (RVal 1 1); LC 24 25 0 (OGet nA) (RVal 1 1)]
+    [(nA, [(1,1);(2,2)], 1)] [(nA, [(1,1);(2,2)], 1, 2)] 3) = true.
+Proof. vm_compute. reflexivity. Qed.
+(* ... "not changed" (a side table of active versions that was not undone) is rejected *)
+Example stale_side_table_rejected :
+  Run_C14.check (LCase [su] [(nA, [(1,1);(2,2)], 1, 2)] 3
+    [LCf 21 22 0 (OActivate nA 2) ROther; LC 23 26 0 (OGetCond nA 2) RNotChanged; LC 24 25 0 (OGet nA) (RVal 1 1)]
+    [(nA, [(1,1);(2,2)], 1)] [(nA, [(1,1);(2,2)], 1, 2)] 3) = false.
+Proof. vm_compute. reflexivity. Qed.
+(* a refused delete after which the secret is reported missing: rejected; a refused call
+   that needed no save (activate of the active version) answers normally: accepted *)
+Example refused_delete_then_missing_rejected :
+  Run_C14.check (LCase [su] [(nA, [(1,1)], 1, 1)] 2
+    [LCf 21 22 0 (ODel nA) ROther; LC 23 24 0 (OGet nA) RNotFound]
+    [(nA, [(1,1)], 1)] [(nA, [(1,1)], 1, 1)] 2) = false
+  /\ Run_C14.check (LCase [su] [(nA, [(1,1)], 1, 1)] 2
+    [LCf 21 22 0 (OActivate nA 1) ROk; LC 23 24 0 (OGet nA) (RVal 1 1)]
+    [(nA, [(1,1)], 1)] [(nA, [(1,1)], 1, 1)] 2) = true.
+Proof. vm_compute. auto. Qed.
